@@ -306,6 +306,9 @@ func (e *Ex) expr(v ssa.Value, d int) string {
 		return "alloc<" + types.TypeString(x.Type().(*types.Pointer).Elem(), shortQual) + ">"
 	case *ssa.UnOp:
 		if x.Op == token.MUL {
+			if rv := e.w.recordField(e.w.focus, x); rv != nil {
+				return e.expr(rv, d+1)
+			}
 			return e.load(x, d)
 		}
 		return x.Op.String() + e.expr(x.X, d+1)
@@ -318,6 +321,9 @@ func (e *Ex) expr(v ssa.Value, d int) string {
 		}
 		return e.expr(x.X, d+1) + "." + fieldName(x.X.Type(), x.Field)
 	case *ssa.Field:
+		if rv := e.w.recordField(e.w.focus, x); rv != nil {
+			return e.expr(rv, d+1)
+		}
 		return e.expr(x.X, d+1) + "." + fieldName(x.X.Type(), x.Field)
 	case *ssa.IndexAddr:
 		// x[lo:][i] with constant lo and i is x[lo+i]
